@@ -112,6 +112,10 @@ func registerIntrinsics(p *Program) {
 		e.MapOrderSymbolic = a[0].(*T).Val == 1
 		return nil, true
 	})
+	h("vUseRealMetaSchemas", func(e *Exec, _ *frame, _ *ssa.Function, a []Value) (Value, bool) {
+		e.Ext["real_meta"] = true
+		return nil, true
+	})
 	h("vIsConcrete", func(e *Exec, _ *frame, _ *ssa.Function, a []Value) (Value, bool) {
 		t, ok := a[0].(*T)
 		return sym.BoolC(ok && t.IsConst()), true
